@@ -109,6 +109,23 @@ Proof.
   destruct (overcap cap (r_p r0)); [left; split; reflexivity | right; repeat split; reflexivity].
 Qed.
 
+(* after a delivery the slot is banned or holds exactly that report *)
+Lemma slot_step_result cap cur r : r_p (slot_step cap cur r) = 1 \/ slot_step cap cur r = r.
+Proof.
+  unfold slot_step. destruct (Z.eqb_spec (r_p cur) 1) as [E|E]; [left; exact E|].
+  destruct (report_eqb cur r) eqn:Q; [right; apply report_eqb_eq; exact Q|].
+  destruct (overcap cap (r_p r)); [left; reflexivity|].
+  destruct (r_p cur =? 0); [right; reflexivity | left; reflexivity].
+Qed.
+
+(* delivering a report again right after it was delivered changes nothing, whatever the slot held *)
+Theorem slot_step_idem cap cur r : slot_step cap (slot_step cap cur r) r = slot_step cap cur r.
+Proof.
+  destruct (slot_step_result cap cur r) as [B|E].
+  - apply slot_step_banned. exact B.
+  - rewrite E. unfold slot_step. destruct (r_p r =? 1); [reflexivity|]. rewrite report_eqb_refl. reflexivity.
+Qed.
+
 (* corollaries *)
 Theorem replay_idempotent cap r n : valid_power r ->
   r_p (fold_left (slot_step cap) (repeat r (S n)) blank_report) = if overcap cap (r_p r) then 1 else r_p r.
